@@ -392,7 +392,9 @@ def normalise(path):
     for it in path:
         if it[0] == 'R':
             _, kind, site, nb, used, szt, span = it
-            if kind == 'skip' or (not used and nb is not None):
+            if kind == 'skip' and nb is None and szt is not None:
+                kind = 'bytes-raw'       # skipping a file-declared number of bytes consumes exactly what a payload read would
+            if (kind == 'skip' and nb is not None) or (kind != 'skip' and not used and nb is not None):
                 if events and events[-1][0] == 'skip':
                     events[-1] = ('skip', events[-1][1] + nb)
                     sites_of_event[-1].append((site, span))
